@@ -104,7 +104,7 @@ PROPS = {
     "C19": {
         "lean_modules": ["MocProps.C19", "MocProps.LockPairs"],
         "theorem_files": ["MocProps/C19.lean", "MocProps/LockPairs.lean"],
-        "gen_groups": ["Prom", "Locks"],
+        "gen_groups": ["Prom", "Locks"], "race": True,
         "n_quick": 1500, "n_thorough": 15000, "thorough_seeds": 3,
         "rule": "1-3 sessions per case on a real prometheus.Registry, 2-12 messages each (REQ/CLOSE of 3 ids incl. repeats, server CLOSED, EVENT of several "
                 "kinds, COUNT, AUTH, all server message types), either interleaved step by step with a Gather() after every step, or run concurrently with "
